@@ -72,7 +72,7 @@ def run(names_path):
         return out if done else None
     tests = [
         ("w byte", lambda e: e["ev"] == "w" and len(e["bytes"]) >= 2 and e["pos"] > 45, lambda e: e["bytes"].__setitem__(0, (e["bytes"][0] + 1) % 256)),
-        ("align unit", lambda e: e["ev"] == "align" and e["unit"] > 1 and e["after"] > e["pos"], lambda e: e.__setitem__("unit", e["unit"] * 2)),
+        ("align unit", lambda e: e["ev"] == "align" and e["unit"] > 1 and e["pos"] % e["unit"] != 0, lambda e: e.__setitem__("unit", e["unit"] * 2)),
         ("row offset", lambda e: e["ev"] == "rows" and len(e["rows"]) > 9, lambda e: e["rows"][9].__setitem__("off", e["rows"][9]["off"] + 1)),
         ("returned count", lambda e: e["ev"] == "ret", lambda e: e.__setitem__("n", e["n"] + 1)),
         ("full value", lambda e: e["ev"] == "full" and e["val"] and e["val"][0] != [], lambda e: e.__setitem__("val", [[]])),
